@@ -37,6 +37,7 @@ def required(tier):
     b = {f'scenario:{n}': 2 for n in NAMES}
     b.update({f'route:{r}': 3 for r in ROUTES})
     b.update({'kind:xproc': 30, 'kind:header': 8, 'kind:copy': 20, 'kind:seeds': 8})
+    b.update({'noise-free-second-recording:10-windows-in-3-sub-blocks': 2, 'noise-free-second-recording:4-windows-in-2-sub-blocks': 1})
     return {'buckets': b, 'counters': {'fresh_process_runs': 30, 'digest_pairs_compared': 100, 'copy_checks': 40},
             'checks': 400, 'nontrivial': 40}
 
@@ -181,6 +182,10 @@ def _header(stg, c, tmp, R):
     # deterministic sources only (no noise, so no generator state to carry): the second recording made from an antenna / array
     # equals the first recording of a fresh identical one whose clock was set to the same instant -- "antenna state" is its
     # sources and its clock, nothing left over from the earlier recording (shared-background clocks, delay carry-over ...)
+    # (every other case: 10 filterbank windows per block worked through in 3 sub-blocks, which do not divide them)
+    spb_, nsub_ = (40, 3) if c['seed'] % 2 == 1 else (16, 2)
+    R.bucket(f'noise-free-second-recording:{spb_ // 4}-windows-in-{nsub_}-sub-blocks')
+
     def quiet_world():
         kw = dict(sample_rate=1e6, fch1=1e9, ascending=bool(c['seed'] % 2), num_pols=2, seed=c['seed'])
         src_ = v.MultiAntennaArray(num_antennas=2, delays=[0, 3 + c['seed'] % 5], **kw) if c['array'] else v.Antenna(**kw)
@@ -193,7 +198,7 @@ def _header(stg, c, tmp, R):
                 s_.add_constant_signal(f_start=1e9 + sgn_ * (1e6 / 16) * (2.3 + 0.4 * q_ + 0.2 * a_i), drift_rate=-sgn_ * 1e5, level=1.0)
         rvb_ = v.RawVoltageBackend(src_, digitizer=v.RealQuantizer(num_bits=8), filterbank=v.PolyphaseFilterbank(num_taps=4, num_branches=16),
                                    requantizer=v.ComplexQuantizer(num_bits=8), start_chan=1, num_chans=3,
-                                   block_size=(2 if c['array'] else 1) * 3 * 16 * 4, blocks_per_file=2, num_subblocks=2)
+                                   block_size=(2 if c['array'] else 1) * 3 * spb_ * 4, blocks_per_file=2, num_subblocks=nsub_)
         return rvb_, src_
 
     def rec_(rvb_, name):
